@@ -201,8 +201,8 @@ def check(ctx: vlib.Ctx) -> int:
             list(ex.map(lambda a: vlib.sample_goals(ctx, f"c05_{a[0]}", req, a[1],
                                                     ["residual_adjust", "residual_plain", "diffuse_profile"]), enumerate(shards)))
     # (d) property oracle + measurement
-    n_single = ctx.scale(360, 3600) if not ctx.broken else ctx.scale(720, 4800)
-    n_em = ctx.scale(24, 240)
+    n_single = ctx.scale(720, 4800) if not ctx.broken else ctx.scale(1080, 6000)
+    n_em = ctx.scale(48, 240)
     cases = [("single", gen_single(rng, k)) for k in range(n_single)] + [("emulsion", gen_emulsion(rng, k)) for k in range(n_em)]
     all_err, fails, spec, fits = [], [], [], 0
     worst = []
